@@ -36,8 +36,8 @@ import warnings
 from pathlib import Path
 
 ROOT = Path(__file__).resolve().parent.parent
-EVIDENCE = ROOT / 'evidence'
-REPLAYS = ROOT / 'replays'
+EVIDENCE = Path(os.environ.get('VERIF_EVIDENCE_DIR') or (ROOT / 'evidence'))
+REPLAYS = Path(os.environ.get('VERIF_REPLAY_DIR') or (ROOT / 'replays'))
 KNOWN = ROOT / 'known_findings.json'
 PY = sys.executable
 
